@@ -33,8 +33,10 @@
 (*  DEV2 MaxTCPQueries, Hijack, MsgAcceptFunc reject/ignore, short packets,    *)
 (*       DecorateReader/Writer and TLS handshakes are not modelled; a TLS      *)
 (*       listener is a Listener to server.go.                                   *)
-(*  DEV3 the harness assigns srv.Listener just before a start call and only    *)
-(*       while the server is not started (guard of StLock).                     *)
+(*  DEV3 srv.Listener is a public field the caller assigns: HSetListener, only  *)
+(*       while the server is not started and no call holds srv.lock.  A start   *)
+(*       serves whatever the field holds when StBody runs (possibly a listener  *)
+(*       an earlier Shutdown closed).                                           *)
 (*  DEV4 a handler writes at most one reply, then may close, then returns.     *)
 EXTENDS Integers, Sequences, FiniteSets, TLC
 
